@@ -158,7 +158,7 @@ func zzH_C04_api() {
 			if heldOK {
 				// slices handed out stay valid until Release, whatever a pool co-tenant does
 				zzHavocFreed()
-				zzAssert(!zzIsFreed(held), "a handed-out slice was recycled before Release")
+				zzAssertLive(held, "a handed-out slice was recycled before Release")
 				zzAssertEqBytes(held, data[heldAt:heldAt+len(held)], "a handed-out slice changed before Release")
 				heldOK = false
 			}
@@ -169,7 +169,7 @@ func zzH_C04_api() {
 	}
 	if heldOK {
 		zzHavocFreed()
-		zzAssert(!zzIsFreed(held), "a handed-out slice was recycled before Release")
+		zzAssertLive(held, "a handed-out slice was recycled before Release")
 		zzAssertEqBytes(held, data[heldAt:heldAt+len(held)], "a handed-out slice changed before Release")
 	}
 	// epilogue: whatever happened before, the next bytes delivered are the next bytes of the stream,
@@ -331,7 +331,7 @@ func zzH_C05_api() {
 		case 2: // Flush
 			for j, q := range regions {
 				if lazy[j] {
-					zzAssert(!zzIsFreed(q), "a region was recycled before Flush")
+					zzAssertLive(q, "a region was recycled before Flush")
 					copy(q, zzBytes("lateFill", len(q)))
 				}
 			}
